@@ -518,24 +518,37 @@ def cfg_term(c, rg=()):
 
 class RefEstimates:
     """records, per RamanFiber uid, what estimate_raman_gain returned when it was asked without a span input power
-    (nothing cached yet): the model's input c_rg"""
+    (nothing cached): `pad` = the estimates made inside add_fiber_padding (the model's input c_rg), `walk` = those made
+    later by target_power during the amplifier walk (the fibre then carries its padded att_in, which the estimate sees:
+    the model's input rgn).  `seen` = pad, kept for the callers that only need c_rg."""
 
     def __enter__(self):
         import gnpy.core.network as N
         from gnpy.core import elements as E
-        self.N, self.orig, self.seen = N, N.estimate_raman_gain, {}
+        self.N, self.orig, self.orig_pad = N, N.estimate_raman_gain, N.add_fiber_padding
+        self.pad, self.walk, self.stage = {}, {}, 'walk'
+        self.seen = self.pad
 
         def estimate_raman_gain(node, equipment, power_dbm):
             fresh = isinstance(node, E.RamanFiber) and power_dbm is None and not hasattr(node, 'estimated_gain')
             g = self.orig(node, equipment, power_dbm)
             if fresh:
-                self.seen[node.uid] = float(g)
+                (self.pad if self.stage == 'pad' else self.walk)[node.uid] = float(g)
             return g
+
+        def add_fiber_padding(*a, **k):
+            self.stage = 'pad'
+            try:
+                return self.orig_pad(*a, **k)
+            finally:
+                self.stage = 'walk'
         N.estimate_raman_gain = estimate_raman_gain
+        N.add_fiber_padding = add_fiber_padding
         return self
 
     def __exit__(self, *a):
         self.N.estimate_raman_gain = self.orig
+        self.N.add_fiber_padding = self.orig_pad
         return False
 
 
